@@ -165,20 +165,25 @@ struct Value {
         setTypeToString();
     }
 
-    inline explicit Value(SizeT64 num) noexcept : number_{num} {
+    inline explicit Value(SizeT64 num) noexcept {
+        number_ = num;
         setTypeToUInt64();
     }
 
-    inline explicit Value(SizeT64I num) noexcept : number_{num} {
+    inline explicit Value(SizeT64I num) noexcept {
+        number_ = num;
         setTypeToInt64();
     }
 
-    inline explicit Value(double num) noexcept : number_{num} {
+    inline explicit Value(double num) noexcept {
+        number_ = num;
         setTypeToDouble();
     }
 
     template <typename Number_T>
-    explicit Value(Number_T num) noexcept : number_{num} {
+    explicit Value(Number_T num) noexcept {
+        number_ = num;
+
         if QENTEM_CONST_EXPRESSION (IsFloat<Number_T>()) {
             setTypeToDouble();
         } else if QENTEM_CONST_EXPRESSION (IsUnsigned<Number_T>()) {
